@@ -69,7 +69,8 @@ RULE = ("tcploop (extra area): fixed, burst (257-300 open requests in chunks or 
         "connections, closes of live connections in either order, opens, command receipt, answers by success/failure, "
         "dropped tasks, clogged channels of capacity 1-3, foreign id allocations, force_close followed by the closes of the "
         "peer's connections in a random order with substream events between, calls of dial/dial_address/add_known_address/"
-        "local_peer_id/listen+public addresses/unregister_protocol), a force_close-with-overlapping-connections family (12 %: "
+        "local_peer_id/listen+public addresses/unregister_protocol; add_known_address with address kinds tcp/tcpp/wrong/udp/unspec/"
+        "two/twow/relay/circ, and a `known` family every 50th case: see checks/c10.py), a force_close-with-overlapping-connections family (12 %: "
         "two connections, pending/received/answered requests, full or dropped channel, force_close, primary-first or "
         "secondary-first close, events of the surviving connection between) and an infeasible stream (third "
         "connections, closes of unknown connections, duplicate/unknown answers, repeated ids, force_close anywhere); every case ends by "
